@@ -94,18 +94,28 @@ func (cl *CheckpointList) Latest() *Checkpoint {
 // aren't really removed until the next successful Save.
 func (cl *CheckpointList) RetainOnly(ids []uint64) {
 	idsSet := ds.SetOf(ids...)
+	var newestRetainedID uint64
+	for _, id := range ids {
+		newestRetainedID = max(newestRetainedID, id)
+	}
 	nextCheckpoints := make([]*Checkpoint, 0, len(ids))
+	var removedCheckpoints []*Checkpoint
 	for _, cp := range cl.checkpoints {
-		if idsSet.Has(cp.ID) {
+		// A checkpoint newer than every retained one belongs to a job checkpoint
+		// that is still being completed or published, so it is not obsolete.
+		if idsSet.Has(cp.ID) || cp.ID > newestRetainedID {
 			nextCheckpoints = append(nextCheckpoints, cp)
 		} else {
-			cl.checkpointsPendingRemoval = append(cl.checkpointsPendingRemoval, cp)
+			removedCheckpoints = append(removedCheckpoints, cp)
 		}
 	}
 	if len(nextCheckpoints) == 0 {
 		panic(fmt.Sprintf("db missing the job's retained checkpoints; job_retained=%v, db_current=%v", ids, cl.checkpoints))
 	}
 
+	// Only mark checkpoints for removal once the request is known to be valid,
+	// otherwise a rejected request would leave retained checkpoints marked.
+	cl.checkpointsPendingRemoval = append(cl.checkpointsPendingRemoval, removedCheckpoints...)
 	cl.checkpoints = nextCheckpoints
 }
 
